@@ -11,7 +11,7 @@ From Coq Require Import PeanoNat Arith Lia.
 From AV Require Import Base.Bytes Base.Outcome Hash.HashModel Spec.SpecOps Tree.Heap Tree.Ops Tree.Script Tree.Inv
   Tree.InvProofsBase Tree.InvProofsCore Tree.InvProofsPrim Tree.InvProofsCreate Tree.InvProofsRefs Tree.InvProofsRemove Tree.InvProofs
   Tree.Compat Tree.CompatSpec Tree.CompatTyped Tree.CompatProofs8 Tree.CompatFrame Tree.CompatFrameOps Tree.CompatHist3
-  Tree.SortProofsHeap Tree.Index Tree.IndexProofsMoveCross.
+  Tree.SortProofsHeap Tree.Index Tree.RefsAll.
 Open Scope string_scope.
 Open Scope list_scope.
 Open Scope N_scope.
